@@ -110,9 +110,21 @@ EXHAUSTIVE = {"quick": True, "thorough": True}
 RULE = ("part A: cases = corpus + EVERY sequence of length <= 6 over the alphabet {begin, commit, rollback, set k0:=1, "
         "set_nested k0.f0:=2, remove k0, set k2:={}} (137,257 sequences; thorough adds remove k1 and set_nested k0.f1.f0: "
         "597,871) on the store {k0:{f0:0}, k1:7} + N random sequences of length 1..10 of all six operations over 3 keys "
-        "(integer and object values, nested paths of 1-3 components, random initial stores). After EVERY operation the "
+        "(integer and object values, nested paths of 1-3 components, random initial stores); "
+        "+ family FALSY: a key holding a value that looks like nothing (null, \"\", 0, 0.0, false, [], {}, {f:null}, {f:{}}, {f:[]}) - "
+        "installed with add_value or with set, before or inside an outer frame - is written / removed / nested-set (1-3 path "
+        "components, null and empty values written too) directly, in a committed child, in a rolled-back child, beside other keys, "
+        "then rolled back (every value x 10 mutators x 6 wrappers), + EVERY sequence of length <= 4 (thorough 5) over the "
+        "null-centred alphabet {begin, commit, rollback, set k0:=1, set k0:=null, remove k0, set_nested k1.f0.f0:=2, "
+        "set_nested k1.f0:=null, set k2:=null, set_nested k0.f0:=1} on the store {k0:null, k1:{f0:null}}, + N/2 random sequences "
+        "over that wide value pool; + family MERGE (constructive, 8-20 operations): for every order of first use of 3 and of 4 "
+        "keys (so the order in which a frame records keys differs from their sort order in every way), nesting depth 2..4 of "
+        "committed children each touching the next key, optionally a committed sibling, then the parent writes every key again "
+        "(ascending / descending / first-use order) and is rolled back, directly or after being committed into an outermost "
+        "frame; every write a distinct integer; + N/4 long random sequences (12..30 operations) over 4-5 keys (the observation "
+        "then carries 4-5 cells). After EVERY operation the "
         "harness observes the call's result, the frame depth (hook) and get_all_facts/snapshot (values and type entries of "
-        "k0..k2, canonical rendering); the model's observations are diffed against them and Spec C10.checkFrom (rollback = "
+        "k0..k2 (k0..k4 in the wide families), canonical rendering); the model's observations are diffed against them and Spec C10.checkFrom (rollback = "
         "store at the matching begin, commit/begin keep the store, no-frame close is a no-op, mutators touch one key) is "
         "evaluated on the implementation's observations. Non-trivial = some rollback closed a frame and changed the store. "
         "part B: corpus/C09 + N_B problems from the C09 generator (every strategy, max_depth 0..6, max_solutions 1/3) run on "
@@ -145,7 +157,9 @@ TRUSTED = [
 ]
 ASSUMPTIONS = [
     "HashMap<String, Value> is a finite map: modelled as a total function key -> (value?, type entry?)",
-    "values in the tie: integers and one-level objects with integer fields (reach every branch of set_nested)",
+    "values in the tie: null, booleans, integers, floats (bit patterns), strings, expressions, arrays of scalars, and objects nested "
+    "up to two levels whose members are any of these (reach every branch of set_nested; present-null and absent are distinct "
+    "cells, printed `z` and `~`); set_nested writes non-object values",
     "mutators that do NOT record undo information (add_value, add, clear, merge, restore) are outside the property's operation list; "
     "the harness uses add_value only to build the initial store",
     "part B actions: Set / Append / Retract / MethodCall(setSpeed) with literal arguments (no Value::Expression), arrays of scalars, "
